@@ -379,14 +379,14 @@ fn layout_plan(t: Tier) -> Vec<(usize, usize)> {
 const MAX_ENTRIES: usize = 3;
 const MAX_ALTS: usize = 3;
 
-fn ops_for(model: &[Vec<MRel>], t: Tier) -> Vec<ROp> {
+/// `light`: the reduced menu used for the deepest steps of the thorough tier (2 entry operands, 3 relation operands,
+/// 5 relation edits, no operation pairs and no kept handles) - the full menu is used for the first steps
+fn ops_for(model: &[Vec<MRel>], _t: Tier, light: bool) -> Vec<ROp> {
     let n = model.len();
     let mut ops = vec![];
-    let eops: &[EOperand] = &EOPERANDS;
-    let rops: &[ROperand] = match t {
-        Tier::Quick => &ROPERANDS[..],
-        Tier::Thorough => &ROPERANDS[..],
-    };
+    let eops: &[EOperand] = if light { &EOPERANDS[..2] } else { &EOPERANDS };
+    let rops: &[ROperand] = if light { &ROPERANDS[..3] } else { &ROPERANDS[..] };
+    let edits: &[RelEdit] = if light { &[RelEdit::SetVersion, RelEdit::ClearVersion, RelEdit::SetArchqual, RelEdit::SetArchs1, RelEdit::AddProfile] } else { &REL_EDITS };
     if n < MAX_ENTRIES {
         for o in eops {
             ops.push(ROp::Push(*o));
@@ -403,7 +403,7 @@ fn ops_for(model: &[Vec<MRel>], t: Tier) -> Vec<ROp> {
         }
         ops.push(ROp::RemoveEntry(i));
         ops.push(ROp::EntrySelfRemove(i));
-        if n < MAX_ENTRIES && model[i].len() < MAX_ALTS {
+        if !light && n < MAX_ENTRIES && model[i].len() < MAX_ALTS {
             for at in 0..=n {
                 ops.push(ROp::KeptEntry(i, at, ROperand::Simple));
             }
@@ -412,6 +412,9 @@ fn ops_for(model: &[Vec<MRel>], t: Tier) -> Vec<ROp> {
     for e in 0..n {
         let m = model[e].len();
         for a in eops_for(m) {
+            if light {
+                break;
+            }
             let m2 = eop_len_after(m, &a);
             if m2 == 0 {
                 continue; // an emptied entry may be dropped by the implementation: no second step through the handle
@@ -432,7 +435,7 @@ fn ops_for(model: &[Vec<MRel>], t: Tier) -> Vec<ROp> {
                     EOp::Replace(x, _) | EOp::Remove(x) => x == j,
                     EOp::Push(_) => false,
                 };
-                if touches || !matches!(a, EOp::Push(ROperand::Simple) | EOp::Replace(_, ROperand::Simple) | EOp::Remove(_)) {
+                if light || touches || !matches!(a, EOp::Push(ROperand::Simple) | EOp::Replace(_, ROperand::Simple) | EOp::Remove(_)) {
                     continue;
                 }
                 for ed in [RelEdit::SetVersion, RelEdit::SetArchs1, RelEdit::AddProfile, RelEdit::DropConstraint] {
@@ -444,10 +447,13 @@ fn ops_for(model: &[Vec<MRel>], t: Tier) -> Vec<ROp> {
             }
             ops.push(ROp::ERemove(e, j));
             ops.push(ROp::RelRemove(e, j));
-            for ed in REL_EDITS {
-                ops.push(ROp::Rel(e, j, ed));
+            for ed in edits {
+                ops.push(ROp::Rel(e, j, *ed));
             }
             for a in REROOTING {
+                if light {
+                    break;
+                }
                 for b in REL_EDITS {
                     ops.push(ROp::RelPair(e, j, a, b));
                 }
@@ -747,7 +753,7 @@ fn depths(t: Tier) -> (usize, usize) {
 
 impl C11 {
     /// breadth-first search over edit histories from one initial field
-    fn bfs(&self, t: Tier, init: &str, subst: bool, nocache: bool, depth: usize, f: &mut dyn FnMut(&C11Case) -> Verdict) {
+    fn bfs(&self, t: Tier, init: &str, subst: bool, nocache: bool, depth: usize, full_steps: usize, f: &mut dyn FnMut(&C11Case) -> Verdict) {
         let mut seen: HashSet<String> = HashSet::new();
         let root = C11Case { init: init.to_string(), subst, ops: vec![], nocache };
         if let Some(k) = f(&root).key {
@@ -763,10 +769,10 @@ impl C11 {
             m
         };
         let mut frontier: Vec<Vec<ROp>> = vec![vec![]];
-        for _ in 0..depth {
+        for step in 0..depth {
             let mut next = vec![];
             for hist in &frontier {
-                for op in ops_for(&model_of(hist), t) {
+                for op in ops_for(&model_of(hist), t, step >= full_steps) {
                     let mut ops = hist.clone();
                     ops.push(op);
                     let case = C11Case { init: init.to_string(), subst, ops, nocache };
@@ -798,12 +804,12 @@ impl Prop for C11 {
         "model_checking"
     }
     fn rule(&self, _t: Tier) -> String {
-        "breadth-first search over histories of Relations::{push,insert,replace,remove_entry}, Entry::{push,replace,remove_relation}, Relation::remove and Relation::{set_version,drop_constraint,set_archqual,set_architectures,add_profile} (single edits through fresh handles and pairs of edits through one kept handle), with every valid index and operands built by parsing, constructors, the builder and From<lossy>; each state is re-reached by replay on a live object; after every transition the printed field must parse strictly to the list-of-lists model, the live object must report the model, untouched entries and substvars keep their text; state key = complete tree walk + handle flags + model; no-cache cross-check pass to a smaller depth; non-trivial = distinct cached state at depth >= 1".into()
+        "breadth-first search over histories of Relations::{push,insert,replace,remove_entry}, Entry::{push,replace,remove_relation}, Relation::remove and Relation::{set_version,drop_constraint,set_archqual,set_architectures,add_profile} (single edits through fresh handles and pairs of edits through one kept handle), with every valid index and operands built by parsing, constructors, the builder and From<lossy>; each state is re-reached by replay on a live object; after every transition the printed field must parse strictly to the list-of-lists model, the live object must report the model, untouched entries and substvars keep their text; state key = complete tree walk + handle flags + model; no-cache cross-check pass to a smaller depth; the first two steps from the fixed starts (the first step from a layout-template start) use the full operation menu, deeper steps a reduced one; non-trivial = distinct cached state at depth >= 1".into()
     }
     fn bounds(&self, t: Tier) -> Value {
         let (dc, dn) = depths(t);
         json!({"initial_fields": INITS.iter().map(|x| x.0).collect::<Vec<_>>(), "depth_cached": dc, "depth_nocache": dn, "max_entries": MAX_ENTRIES, "max_alternatives": MAX_ALTS,
-               "ops_at_a_2x2_field": ops_for(&vec![vec![mrel("a"), mrel("b")], vec![mrel("c"), mrel("d")]], t).len()})
+               "ops_at_a_2x2_field": ops_for(&vec![vec![mrel("a"), mrel("b")], vec![mrel("c"), mrel("d")]], t, false).len(), "light_ops_at_a_2x2_field": ops_for(&vec![vec![mrel("a"), mrel("b")], vec![mrel("c"), mrel("d")]], t, true).len(), "full_menu_steps": {"fixed_and_constructor_starts": 2, "layout_template_starts": 1}})
     }
     fn assumptions(&self) -> Vec<String> {
         vec![
@@ -822,7 +828,7 @@ impl Prop for C11 {
             let (init, subst) = if i < INITS.len() { INITS[i] } else { (CTOR_INITS[i - INITS.len()], CTOR_INITS[i - INITS.len()].contains("${")) };
             let nocache = shard % 2 == 1;
             let (dc, dn) = depths(t);
-            self.bfs(t, init, subst, nocache, if nocache { dn } else { dc }, f);
+            self.bfs(t, init, subst, nocache, if nocache { dn } else { dc }, 2, f);
         } else {
             let (ti, first) = layout_shards()[shard - fixed];
             let (tpl, subst) = TEMPLATES[ti];
@@ -830,7 +836,7 @@ impl Prop for C11 {
             for (k, depth) in layout_plan(t) {
                 crate::kdev::kdev_shard(&menus, k, first, &mut |v| {
                     let init = template_render(tpl, v);
-                    self.bfs(t, &init, subst, false, depth, f);
+                    self.bfs(t, &init, subst, false, depth, 1, f);
                 });
             }
         }
